@@ -1,6 +1,25 @@
-"""C07: Wishbone adapters and memories are transparent (flat memory contract), G-mode."""
+"""C07: Wishbone adapters and memories are transparent (flat memory contract), G-mode.
+
+Two parts, both exhaustive closed-loop graph constructions judged by TLC:
+  classic  specs/wbmem/FlatMemContract  - classic cycles through converters, cache, remapper, CSR bridge, SRAM
+  burst    specs/wbmem/FlatMemBurst     - B4 registered feedback burst cycles (cti/bte) through the bursting SRAM,
+                                          the read-only bursting SRAM and converters in front of a bursting SRAM
+The burst part runs in a child process next to the classic part (each batch is an independent graph loop);
+what it reports is recorded there and replayed on the real Report by the parent in a fixed order."""
+import json
+import multiprocessing as mp
+import os
+import re
+import time
+import traceback
+
+from .. import gcheck
+from .. import tlc as tlcmod
 from ..gcheck import GFamily, run_batches
+from ..graphloop import GraphLoop
 from ..families import wbmem as fam
+from ..families import wbburst as bfam
+from ..report import Report, MachineryError, ROOT, load_findings
 
 INVS = ["ReadReturnsLastWrite", "OneAckPerCycle", "NoBusError"]
 PROPS = ["Served"]
@@ -11,15 +30,246 @@ FAMILY = GFamily("wbmem/FlatMemGraph", "wbmem/FlatMemTrace", "harness.families.w
                  describe=lambda s: "wishbone.%s(%s)" % (s["kind"], ", ".join("%s=%s" % (k, v) for k, v in sorted(s.items())
                                                                           if k not in ("kind", "backing_bytes"))))
 
+# ------------------------------------------------------------------------------------------- burst part
+B_INVS = ["ReadReturnsLastWrite", "BurstAddressSequence", "OneAckPerBeat", "NoBusError", "SlaveBurstSequence"]
+B_CM = {k: k for k in B_INVS}
+B_CM["Served"] = "BoundedService"
+B_NAMES = {"bsram": "SRAM(bursting=True)", "bsram_ro": "SRAM(bursting=True, read_only=True)",
+           "sram_nb": "SRAM(bursting=False) driven with burst tags", "bdown": "DownConverter + SRAM(bursting=True)",
+           "bup": "UpConverter + SRAM(bursting=True)", "bconv": "Converter(equal widths) + SRAM(bursting=True)"}
+
+
+def _bdescribe(s):
+    return "wishbone.%s[burst master](%s)" % (B_NAMES.get(s["kind"], s["kind"]), ", ".join(
+        "%s=%s" % (k, v) for k, v in sorted(s.items()) if k not in ("kind", "backing_bytes", "alone", "cost")))
+
+
+B_FAMILY = GFamily("wbmem/FlatMemBurstGraph", "wbmem/FlatMemBurstTrace", "harness.families.wbburst:make",
+                   hint=bfam.Hint(), fmt="hash", clause_map=B_CM, describe=_bdescribe)
+_WIT_RE = re.compile(r'<<"WIT", (\d+), "([^"]*)">>')
+
+
+def _burst_loop_class(seen):
+    """GraphLoop whose speculation ENUMERATES the inputs the Env master can apply in a context (Hint.inputs,
+    a mirror of Inputs in FlatMemBurst.tla) instead of filtering the whole alphabet per state, and which
+    collects the <<"WIT", dut, name>> lines of the last TLC run.  Accelerator only: whatever the mirror gets
+    wrong TLC asks for again (NEED) or is an unused edge."""
+    class BurstLoop(GraphLoop):
+        def stats(self):
+            res = self.final
+            if res is not None:
+                for mm in _WIT_RE.finditer(res.out):
+                    seen.setdefault(int(mm.group(1)), set()).add(mm.group(2))
+            return super().stats()
+
+        def _ins(self, di, ctx):
+            memo = self.__dict__.setdefault("_memo", {})
+            r = memo.get((di, ctx))
+            if r is None:
+                r = [(tlcmod.tuple_key(iv), iv) for iv in self.hint.inputs(self.duts[di].cfg, ctx)]
+                memo[(di, ctx)] = r
+            return r
+
+        def _speculate(self, computed):
+            hint = self.hint
+            total = 0
+            if self.total_budget <= 0 or self.spec_budget <= 0:
+                return 0
+            frontier = []
+
+            def follow(di, s, ctx, out):
+                g = self.duts[di]
+                for k, iv in self._ins(di, ctx):
+                    e = g.succ[s].get(k)
+                    if e is None:
+                        continue
+                    o, d = e
+                    nctx = hint.next(g.cfg, ctx, iv, o)
+                    if nctx not in g.ctxs.setdefault(d, set()):
+                        g.ctxs[d].add(nctx)
+                        out.append((di, d, nctx))
+            for di, s in sorted({(di, s) for di, s, _ in computed}):
+                g = self.duts[di]
+                for ctx in list(g.ctxs.get(s, ())) or [hint.init(g.cfg)]:
+                    follow(di, s, ctx, frontier)
+            while frontier:
+                if sum(g.nedges for g in self.duts) >= self.total_budget:
+                    break
+                needs = {}
+                for di, s, ctx in frontier:
+                    g = self.duts[di]
+                    if g.nedges >= self.spec_budget:
+                        continue
+                    for k, iv in self._ins(di, ctx):
+                        if k not in g.succ[s]:
+                            g.alphabet.setdefault(k, iv)
+                            needs.setdefault(di, set()).add((s, iv))
+                if needs:
+                    n, _ = self._compute(needs)
+                    total += n
+                    for g in self.duts:
+                        g.spec_errors = getattr(g, "spec_errors", 0) + len(g.errors)
+                        g.errors = []
+                nxt = []
+                for di, s, ctx in frontier:
+                    follow(di, s, ctx, nxt)
+                frontier = nxt
+            return total
+    return BurstLoop
+
+
+class _Recorder:
+    """what run_batches reports, recorded in the child process and replayed on the real Report by the parent
+    (so replay files are numbered and KNOWN-FINDING / VIOLATION lines are printed in one place)"""
+    def __init__(self, prop, tier, seed):
+        self.seed = seed
+        self.calls = []
+        self._probe = Report(prop, tier, seed)
+        self._probe.findings = list(self._probe.findings) + _notes_findings(prop)
+
+    def add(self, **kw):
+        self.calls.append(("add", kw))
+
+    def sample(self, x, cap=8):
+        self.calls.append(("sample", (x, cap)))
+
+    def violation(self, sig, replay, text):
+        self.calls.append(("violation", (sig, replay, text)))
+        return self._probe.match_known(sig) is None
+
+
+def _notes_findings(prop):
+    """findings of notes/C07b_findings.json that /verif/known_findings.json does not list yet (by id, whatever
+    their status there): lets the check run before the main agent has merged the notes"""
+    path = os.path.join(ROOT, "notes", "C07b_findings.json")
+    if not os.path.exists(path):
+        return []
+    have = {f.get("id") for f in load_findings()}
+    with open(path) as fh:
+        return [f for f in json.load(fh) if f.get("id") not in have and f.get("property") == prop]
+
+
+def burst_batches(cfgs):
+    """DUTs expected to hit a listed finding and big ones alone, the rest in batches of cost <= 4"""
+    out, cur, cost = [], [], 0
+    for c in cfgs:
+        if c[0].get("alone"):
+            out.append([c])
+            continue
+        w = c[0].get("cost", 1)
+        if cur and cost + w > 4:
+            out.append(cur)
+            cur, cost = [], 0
+        cur.append(c)
+        cost += w
+    if cur:
+        out.append(cur)
+    return out
+
+
+def run_burst(rec, tier, log=print):
+    """explores every burst DUT of the tier; -> (per-DUT stats, witnesses by DUT description)"""
+    cfgs = bfam.configs(tier)
+    only = [k for k in os.environ.get("VERIF_C07_BURST_KINDS", "").split(",") if k]
+    if only:
+        cfgs = [c for c in cfgs if c[0]["kind"] in only]
+    seen = {}
+    old = gcheck.GraphLoop
+    gcheck.GraphLoop = _burst_loop_class(seen)
+    try:
+        stats = run_batches(B_FAMILY, rec, burst_batches(cfgs), B_INVS, PROPS, spec_budget=400000,
+                            total_budget=1500000, followup=True, log=log, tlc_timeout=3000)
+    finally:
+        gcheck.GraphLoop = old
+    explored = {s["dut"] for s in stats}
+    wit = {}
+    for spec, cfg in cfgs:
+        name = _bdescribe(spec)
+        if name not in explored:
+            continue                    # DUT dropped after a confirmed violation: no vacuity claim needed
+        got = seen.get(cfg["wi"], set())
+        missing = set(bfam.required_witnesses(spec)) - got
+        if missing:
+            raise MachineryError("vacuity: %s never showed %s" % (name, sorted(missing)))
+        wit[name] = sorted(got)
+    return stats, wit, len(cfgs)
+
+
+def _burst_child(prop, tier, seed, q):
+    from .. import py312_tracer
+    py312_tracer.install()
+    rec = _Recorder(prop, tier, seed)
+    t0 = time.time()
+    try:
+        stats, wit, n = run_burst(rec, tier, log=lambda *a: print("[burst]", *a, flush=True))
+        q.put((rec.calls, stats, wit, n, round(time.time() - t0, 1), None))
+    except MachineryError as ex:
+        q.put((rec.calls, [], {}, 0, round(time.time() - t0, 1), "machinery: %s" % ex))
+    except Exception:
+        q.put((rec.calls, [], {}, 0, round(time.time() - t0, 1), traceback.format_exc()))
+
+
+def _merge_burst(report, res):
+    calls, stats, wit, n, wall, err = res
+    for name, a in calls:
+        if name == "add":
+            report.add(**a)
+        elif name == "sample":
+            report.sample(a[0], cap=10)
+        else:
+            report.violation(*a)            # confirmed by linear replay + T-mode validation in the child
+            report.add(traces_validated_against_impl=1)
+    report.add(burst_duts_explored=len(stats), burst_configurations=n, burst_clauses=B_INVS + PROPS,
+               burst_per_dut=stats, burst_witnesses=wit, burst_part_wall_s=wall)
+    if err:
+        raise MachineryError("burst part: %s" % err[:4000])
+
 
 def run(prop, report, tier, seed):
-    cfgs = fam.configs(tier)
-    report.assume("one outstanding classic cycle per master, held until acknowledged; bytes carry one of two values; "
-                  "memories of 2-8 words; every chain ends in the repository's own SRAM")
-    small = [c for c in cfgs if c[0]["kind"] != "cache"]
-    big = [c for c in cfgs if c[0]["kind"] == "cache"]
-    batches = [small[i:i + 8] for i in range(0, len(small), 8)] + [[c] for c in big]
-    stats = run_batches(FAMILY, report, batches, INVS, PROPS, spec_budget=600000, total_budget=2000000,
-                        followup=True)
-    report.add(duts_explored=len(stats), clauses=INVS + PROPS, per_dut=stats)
+    part = os.environ.get("VERIF_C07_PART", "all")       # development aid: classic | burst | all
+    if part != "all":
+        report.note("restricted to the %s part by VERIF_C07_PART" % part)
+    if os.environ.get("VERIF_C07_BURST_KINDS"):
+        report.note("burst DUT kinds restricted by VERIF_C07_BURST_KINDS=%s" % os.environ["VERIF_C07_BURST_KINDS"])
+    report.findings = list(report.findings) + _notes_findings(prop)
+    child = q = None
+    if part in ("all", "burst"):
+        report.assume("burst part: Wishbone B4 registered feedback master - cyc and stb held from the first beat to the "
+                      "acknowledge of the last one (no master wait states inside a burst), every beat held until "
+                      "acknowledged, the address of the current beat presented on every beat, cti 010/001 on all beats but "
+                      "the last, 111 on the last, bte and we fixed per burst; bursts of 1..maxlen beats, any gap between "
+                      "cycles, classic cycles and single 111 accesses interleaved; wrap-n address sequence as in the B4 "
+                      "burst type extension table (1-2-3-0-5-6-7-4), modulo the master's address space")
+        ctx = mp.get_context("fork")
+        q = ctx.Queue()
+        child = ctx.Process(target=_burst_child, args=(prop, tier, seed, q))
+        child.start()
+    try:
+        if part in ("all", "classic"):
+            cfgs = fam.configs(tier)
+            report.assume("one outstanding classic cycle per master, held until acknowledged; bytes carry one of two values; "
+                          "memories of 2-8 words; every chain ends in the repository's own SRAM")
+            small = [c for c in cfgs if c[0]["kind"] != "cache"]
+            big = [c for c in cfgs if c[0]["kind"] == "cache"]
+            batches = [small[i:i + 8] for i in range(0, len(small), 8)] + [[c] for c in big]
+            stats = run_batches(FAMILY, report, batches, INVS, PROPS, spec_budget=600000, total_budget=2000000,
+                                followup=True)
+            report.add(duts_explored=len(stats), clauses=INVS + PROPS, per_dut=stats)
+    except BaseException:
+        if child is not None and child.is_alive():
+            child.terminate()
+        raise
+    if child is not None:
+        res = None
+        while res is None:
+            try:
+                res = q.get(timeout=5)
+            except Exception:
+                if not child.is_alive():
+                    try:
+                        res = q.get(timeout=1)
+                    except Exception:
+                        raise MachineryError("burst part: child process died with exit code %s" % child.exitcode)
+        child.join()
+        _merge_burst(report, res)
     report.cov["exhaustive"] = True
